@@ -349,6 +349,45 @@ def family_duplicated(rng):
     }
 
 
+def linear_in_state_program(rng, **kw):
+    """States enter every update linearly, with coefficients that depend on dt, controls and calibration
+    only: the process Jacobian is then free of state symbols (but not of dt / controls), the shape that
+    tempts an implementation to cache it.  Sensors are linear or bilinear in the states."""
+    d = _program(rng, integrator_bias=0.0, **kw)
+    st, ctl, cal = d["state"], d["control"], d["calibration"]
+    coef_leaves = [d["dt"]] + ctl + cal
+
+    def coef():
+        c = gen_expr(rng, coef_leaves, 1)
+        return c if coef_leaves else gen_leaf(rng, [])
+
+    model = {}
+    for s in st:
+        body = ["mul", ["add", E.C(1), ["mul", E.S(d["dt"]), coef()]], E.S(s)]
+        for other in st:
+            if other != s and rng.random() < 0.5:
+                body = ["add", body, ["mul", ["mul", E.S(d["dt"]), coef()], E.S(other)]]
+        if ctl and rng.random() < 0.7:
+            body = ["add", body, ["mul", E.S(d["dt"]), E.S(rng.choice(ctl))]]
+        model[s] = body
+    d["model"] = _shuffled_dict(rng, model)
+    sensors = {}
+    for sn, rd in d["sensors"].items():
+        new = {}
+        for r in rd:
+            kind = rng.random()
+            if kind < 0.4 or len(st) < 2:
+                new[r] = ["add", ["mul", gen_leaf(rng, cal, 0.5), E.S(rng.choice(st))], E.S(rng.choice(st))]
+            else:
+                a, b = rng.sample(st, 2)
+                new[r] = ["add", ["mul", E.S(a), E.S(b)], E.S(rng.choice(st))]  # bilinear: zero pure second derivatives
+        sensors[sn] = new
+    d["sensors"] = sensors
+    d["model_as_text"] = []
+    d["family"] = "linear_in_state"
+    return d
+
+
 def contractive_program(rng, **kw):
     """Random program whose state stays bounded: s' = a*s + dt*bounded(...)."""
     d = program(rng, integrator_bias=0.0, **kw)
